@@ -5,8 +5,9 @@ C12 - CODE MODEL of the rule text: `DBusClientConnection.addMatch` (rendering, c
 
 Python behaviour mirrored by hand: `'%d' % idx` for `idx >= 0`, `','.join`, `str.split(sep)`
 (always at least one piece), tuple unpacking of the pieces (`ValueError` unless exactly two),
-slice `v[1:-1]` and `k[3:-4]` (clamping), `int(s)` restricted to non-empty ASCII digit strings
-(sign, blanks, `_` and non-ASCII digits are outside the modelled domain and reported as such).
+slice `v[1:-1]` and `k[3:-4]` (clamping), `int(s)` decided for ASCII digit strings and for strings
+that certainly are no integer literal; sign, blanks, `_` and non-ASCII digits are answered
+`outOfDomain` (the harness skips the comparison there and counts it).
 -/
 namespace Txdbus.Route
 
@@ -70,14 +71,31 @@ def splitOn (c : Char) : List Char → List Str
 
 def isAsciiDigit (c : Char) : Bool := '0' ≤ c && c ≤ '9'
 
-/-- `int(s)` on non-empty ASCII digit strings; `none` otherwise (see the header). -/
-def parseNat (s : Str) : Option Nat :=
-  if s.isEmpty || !s.all isAsciiDigit then none
-  else some (s.foldl (fun acc c => acc * 10 + (c.toNat - 48)) 0)
+/-- A character that can never occur in a string `int()` accepts: printable ASCII other than digits,
+`+`, `-`, `_` (Python's `int` allows a sign, single underscores between digits, surrounding white
+space and any Unicode decimal digit - all of that is outside the modelled domain). -/
+def neverInInt (c : Char) : Bool :=
+  33 ≤ c.toNat && c.toNat ≤ 126 && !isAsciiDigit c && c != '+' && c != '-' && c != '_'
+
+inductive IntResult where
+  | ok (n : Nat)
+  | valueError
+  | outOfDomain        -- the model does not decide (sign, blanks, underscores, non-ASCII)
+  deriving DecidableEq, Repr
+
+/-- `int(s)`: decided for non-empty ASCII digit strings (value), for the empty string and for strings
+containing a character no integer literal can contain (`ValueError`); everything else is reported as
+outside the model. -/
+def parseNat (s : Str) : IntResult :=
+  if s.isEmpty then .valueError
+  else if s.all isAsciiDigit then .ok (s.foldl (fun acc c => acc * 10 + (c.toNat - 48)) 0)
+  else if s.any neverInInt then .valueError
+  else .outOfDomain
 
 inductive ParseErr where
   | valueError      -- tuple unpacking or `int()` failed
-  | outOfDomain     -- the text assigns a string to `args` / `arg_paths` directly: not modelled
+  | outOfDomain     -- not modelled: the text assigns a string to `args` / `arg_paths` directly, or an
+                    -- argument index that `int()` might accept but is not a plain ASCII digit string
   deriving DecidableEq, Repr
 
 /-- `v[1:-1]`. -/
@@ -115,12 +133,14 @@ def parseItem (kwKeys : List Str) (a : RuleArgs) (item : Str) : Except ParseErr 
     else if "arg".toList.isPrefixOf k then
       if "path".toList.isSuffixOf k then
         match parseNat (slice3m4 k) with
-        | none => .error .valueError
-        | some i => .ok { a with argPaths := some (a.argPaths.getD [] ++ [(i, value)]) }
+        | .valueError => .error .valueError
+        | .outOfDomain => .error .outOfDomain
+        | .ok i => .ok { a with argPaths := some (a.argPaths.getD [] ++ [(i, value)]) }
       else
         match parseNat (k.drop 3) with
-        | none => .error .valueError
-        | some i => .ok { a with args := some (a.args.getD [] ++ [(i, value)]) }
+        | .valueError => .error .valueError
+        | .outOfDomain => .error .outOfDomain
+        | .ok i => .ok { a with args := some (a.args.getD [] ++ [(i, value)]) }
     else .ok a
   | _ => .error .valueError
 
